@@ -4,7 +4,8 @@ Decides: for each encode/decode pair the *wire grammar* agrees — every token s
 emit (raw bytes, LEB128 integers, counted repetitions, with helper functions and closures inlined)
 is one the reader consumes on a non-error path (the reader may accept more: legacy formats) — and
 for the pairs that carry several integers the k-th integer written comes from the field that the
-k-th integer read is stored into (field identity, by provenance).
+k-th integer read is stored into (field identity, by provenance); and for every pair the set of fields of `self`
+the encoder reads equals the set of fields the decoder fills from the parsed input (a persisted field must be the one restored).
 Pairs: ExId::{to_bytes, try_from}, Cursor::{to_bytes, try_from(&[u8])}, BloomFilter::{to_bytes, parse},
 chunk::Header::{write, parse}, sync::State::{encode, parse}, sync::Message::{encode, parse}.
 Resolution of a decoded id against a replica with different actor numbering is decided under C30.
@@ -84,6 +85,7 @@ def run(ctx):
                    "the encoder can emit is consumed by the decoder on a non-error path; for ExId, Cursor and BloomFilter the k-th integer written comes from the field the k-th integer read is stored into.")
     ctx.not_decided = "value-level round-trip equality; Display/FromStr text forms; correctness of LEB128 itself. Resolution against differently numbered actors is C30."
     ctx.rule("R5-grammar", "writer token sequences ⊆ reader token sequences (normalised; look-ahead reads and zero-iteration artefacts removed)")
+    ctx.rule("R5-payload", "the set of self fields the encoder reads equals the set of fields the decoder fills from parsed input (derived fields listed)")
     ctx.rule("R5-field", "field identity: per integer position, the field written is among the fields the value read at that position is stored into")
     f = ctx.facts()
     for name, w, r in PAIRS:
@@ -104,6 +106,14 @@ def run(ctx):
             ok = s in rs
             ctx.ob("R5-grammar", k, ok, f.fns[w]["sp"], "%s" % (s,) if ok else "writer can emit %s but the reader only accepts %s" % (s, sorted(rs, key=str)))
         ctx.samples.append({"pair": name, "writer": [list(map(str, s)) for s in sorted(ws, key=str)], "reader_only": [list(map(str, s)) for s in sorted(rs - ws, key=str)]})
+    # ---- payload fields: what the encoder reads from self is what the decoder fills from the input
+    for name, w, r in PAIRS:
+        W, R, naggs, selfty = payload_fields(f, w, r)
+        ctx.floor("%s: constructions of %s in the reader" % (name, selfty.split("::")[-1]), naggs, 1)
+        extra = R - W - DERIVED.get(name, set())
+        ok = bool(W) and W <= R and not extra
+        ctx.ob("R5-payload", "%s|fields encoded == fields decoded" % name, ok, f.fns[w]["sp"],
+               "both: %s" % sorted(W) if ok else "the encoder reads %s of self but the decoder fills %s from the input: written-not-read %s, read-not-written %s" % (sorted(W), sorted(R), sorted(W - R), sorted(extra)))
     # ---- field identity
     for name, w, r, adt, variant, _ in FIELDS:
         wb, rb = ctx.body(w), ctx.body(r)
@@ -124,6 +134,56 @@ def run(ctx):
                 break
         ctx.ob("R5-field", "%s|k-th integer written and read belong to the same field" % name, hit is not None, rb.rec["sp"],
                "write-side fields %s, read-side fields %s" % ([sorted(x) for x in wf], [sorted(x) for x in rf]))
+
+
+# fields the reader computes from the input rather than reads verbatim (not written by the encoder)
+DERIVED = {"chunk::Header": {"hash", "header_size"}}
+
+
+def payload_fields(f, w, r):
+    """(fields of self the writer reads, fields of the same type the reader fills from parsed input)"""
+    wb, rb = cfg.body(f.fns[w]), cfg.body(f.fns[r])
+    W = set()
+
+    def note(pl):
+        if pl is None:
+            return
+        o = wb.origin(pl["l"], tuple(pl["p"]))
+        if o[0] == 1:
+            fl = [e for e in o[1] if e.startswith(".")]
+            if fl:
+                W.add(fl[0][1:])
+    for blk in wb.blocks:
+        if blk.get("cleanup"):
+            continue
+        for st in blk["st"]:
+            rv = st["rv"]
+            if "p" in rv:
+                note(rv["p"])
+            for o in rv.get("o", ()):
+                note(util.op_place(o))
+        t = blk["t"]
+        if t["k"] == "call":
+            for a in t["args"]:
+                note(util.op_place(a))
+    selfty = util.base_ty(wb.local_ty(1))
+    R, naggs = set(), 0
+    a = f.adts.get(selfty)
+    for blk in rb.blocks:
+        if blk.get("cleanup"):
+            continue
+        for st in blk["st"]:
+            rv = st["rv"]
+            if rv["k"] == "Agg" and rv.get("adt") == selfty and a:
+                var = [v for v in a["variants"] if v["name"] == rv["variant"]]
+                if not var:
+                    continue
+                naggs += 1
+                for i, o in enumerate(rv.get("o", [])):
+                    pv = rb.provenance(o, through_calls=True)
+                    if pv.params or any("parse" in norm_fn(c) for c in pv.callees()):
+                        R.add(var[0]["fields"][i]["name"])
+    return W, R, naggs, selfty
 
 
 def norm_fields(s):
